@@ -7,7 +7,7 @@ from hypothesis import strategies as st
 from . import g3model as gm
 
 ID_POOL = ["A", "B1", "c", "104", "P_5", "pt-6", "7a", "X", "sta.9", "Q"]
-KINDS = ["gnss_fixed", "gnss_fixed", "gnss_free", "gnss_free", "mixed_fixed", "mixed_fixed", "mixed_fixed", "dist_free"]
+KINDS = ["gnss_fixed", "gnss_fixed", "gnss_free", "gnss_free", "mixed_fixed", "mixed_fixed", "dist_fixed", "dist_fixed", "dist_free"]
 LAT_CLASSES = ["equator", "mid_north", "mid_south", "polar_cap", "pole", "antimeridian"]
 DEG = 3600 * 100000          # units of 1e-5" per degree
 
@@ -78,7 +78,7 @@ STATUS_FREEISH = ["free", "free", "free", "free", "free", "constr", "fixed"]
 
 
 @st.composite
-def covariance(draw, obs):
+def covariance(draw, obs, big_sigma=False):
     """cov description of a cluster (see g3model.cluster_cov)"""
     m = sum(gm.OBS_DIM[o["t"]] for o in obs)
     scalars = 0
@@ -99,7 +99,7 @@ def covariance(draw, obs):
         band = rest - 1                      # full matrix
     else:
         band = draw(st.integers(1, max(1, min(rest - 1, 4))))
-    return {"own": own, "band": band,
+    return {"own": own, "band": band, "sigscale": draw(st.sampled_from([1, 1, 1, 1, 30, 1000])) if big_sigma else 1,
             "sdmode": draw(st.lists(st.sampled_from(["stdev", "variance"]), min_size=3, max_size=3)),
             "diag": draw(st.lists(st.integers(2, 6), min_size=4, max_size=4)),
             "off": draw(st.lists(st.integers(-2, 2), min_size=6, max_size=6)),
@@ -160,7 +160,7 @@ def network(draw, noisy=None, kinds=None):
         return list(draw(st.permutations(pool)))[:cnt]
 
     datum = None
-    if kind in ("gnss_fixed", "mixed_fixed"):
+    if kind in ("gnss_fixed", "mixed_fixed", "dist_fixed"):
         datum = draw(st.sampled_from(["fixed_point", "fixed_point", "xyz_obs"]))
         if datum == "fixed_point":
             pts[0]["ne"] = pts[0]["u"] = "fixed"
@@ -176,6 +176,8 @@ def network(draw, noisy=None, kinds=None):
                     recipes += ["polar", "polar", "polar"]
                 if k >= 3:
                     recipes += ["trilat", "trilat"]
+            if kind == "dist_fixed" and k >= 3:
+                recipes += ["trilat", "trilat", "trilat"]
             rc = draw(st.sampled_from(recipes))
             if rc == "vector":
                 obs.append(mk("vector", other(k, upto=k), k))
@@ -192,8 +194,10 @@ def network(draw, noisy=None, kinds=None):
             else:
                 a, b, c = other(k, 3, upto=k)
                 obs += [mk("distance", a, k), mk("distance", k, b), mk("distance", c, k)]
-                obs.append(mk("height", k) if draw(st.booleans()) else mk("zenith", a, k))
+                obs.append(mk("height", k) if (kind == "dist_fixed" or draw(st.booleans())) else mk("zenith", a, k))
         types = ["vector", "xyz"] if gnss else ["vector", "xyz", "distance", "distance", "zenith", "angle", "height", "hdiff"]
+        if kind == "dist_fixed":
+            types = ["vector", "xyz", "distance", "distance", "distance", "height", "hdiff"]
         for _ in range(draw(st.integers(0, n + 2))):
             t = draw(st.sampled_from(types))
             k = draw(st.integers(0, n - 1))
@@ -300,7 +304,7 @@ def network(draw, noisy=None, kinds=None):
     # points without given coordinates: only where gama can derive them from vectors / xyz (checked by the oracle)
     # (not in free networks regularised over all unknowns, not at a pole where the printed 9 decimals do not fix the frame)
     any_constr = any(p["ne"] == "constr" or p["u"] == "constr" for p in pts)
-    if gnss and lat != "pole" and (kind == "gnss_fixed" or any_constr) and draw(st.integers(0, 2)) == 0:
+    if gnss and lat != "pole" and not use_dh and (kind == "gnss_fixed" or any_constr) and draw(st.integers(0, 2)) == 0:
         for k, p in enumerate(pts):
             # (a constrained component without given coordinates would make the datum depend on which observation
             # gama happens to use for the approximate position)
@@ -329,7 +333,7 @@ def network(draw, noisy=None, kinds=None):
                 part.sort(key=lambda o: gm.OBS_DIM[o["t"]])
             for o in part:
                 o["z"] = [draw(st.integers(-300, 300)) for _ in range(gm.OBS_DIM[o["t"]])] if noisy else [0] * gm.OBS_DIM[o["t"]]
-            clusters.append({"obs": part, "cov": draw(covariance(part))})
+            clusters.append({"obs": part, "cov": draw(covariance(part, big_sigma=not noisy))})
     if len(clusters) > 1 and draw(st.booleans()):
         clusters = [clusters[k] for k in draw(st.permutations(list(range(len(clusters)))))]
 
